@@ -150,6 +150,16 @@ fn c15(r: &mut R) {
         r.case("modp", vec![ve(a)], || Out::Ok(ve(&a.modp(&ctx))));
         r.case("epow", vec![ve(a), vx(&x)], || Out::Ok(ve(&ctx.emod_pow(a, &x))));
         r.case("gpow", vec![vx(&x)], || Out::Ok(ve(&ctx.gmod_pow(&x))));
+        // the trait methods taking an explicit (ignored) modulus, and the Ctx-level reductions
+        r.case("div", vec![ve(a), ve(b)], || Out::Ok(ve(&a.div(b, c))));
+        r.case("inv", vec![ve(a)], || Out::Ok(ve(&a.inv(c))));
+        r.case("modp", vec![ve(a)], || Out::Ok(ve(&a.modulo(c))));
+        r.case("modp", vec![ve(a)], || Out::Ok(ve(&ctx.modulo(a))));
+        r.case("epow", vec![ve(a), vx(&x)], || Out::Ok(ve(&a.mod_pow(&x, c))));
+        r.case("xdiv", vec![vx(&x), vx(&y)], || Out::Ok(vx(&x.div(&y, &x))));
+        r.case("xinv", vec![vx(&x)], || Out::Ok(vx(&x.inv(&y))));
+        r.case("xmod", vec![vx(&x)], || Out::Ok(vx(&x.modulo(&y))));
+        r.case("xmod", vec![vx(&x)], || Out::Ok(vx(&ctx.exp_modulo(&x))));
         r.case("xadd", vec![vx(&x), vx(&y)], || Out::Ok(vx(&x.add(&y))));
         r.case("xsub", vec![vx(&x), vx(&y)], || Out::Ok(vx(&x.sub(&y))));
         r.case("xmul", vec![vx(&x), vx(&y)], || Out::Ok(vx(&x.mul(&y))));
